@@ -169,6 +169,20 @@ fn threads_child(a: &[String]) -> ! {
     if answers > 0 {
         fake_chronyd(answers, isolated);
     }
+    // optional 6th value: 1 = the operating system refuses new threads (the address-space limit is lowered to what the process uses
+    // now plus a little: the stack of a new thread cannot be mapped, pthread_create fails with EAGAIN)
+    if n(5) == 1 {
+        let vsize_pages: u64 = std::fs::read_to_string("/proc/self/statm").ok().and_then(|s| s.split_whitespace().next().and_then(|x| x.parse().ok())).unwrap_or(0);
+        let lim = vsize_pages * 4096 + 768 * 1024;
+        unsafe {
+            let mut rl: libc::rlimit = std::mem::zeroed();
+            libc::getrlimit(libc::RLIMIT_AS, &mut rl);
+            rl.rlim_cur = lim;
+            libc::setrlimit(libc::RLIMIT_AS, &rl);
+        }
+        let probe = std::thread::Builder::new().spawn(|| {});
+        println!("probe_spawn_refused={}", probe.is_err());
+    }
     let t0 = std::time::Instant::now();
     clock_bound_d::thread_manager::run(1000, None);
     println!("returned_ms={} isolated={}", t0.elapsed().as_millis(), isolated);
@@ -176,6 +190,11 @@ fn threads_child(a: &[String]) -> ! {
 }
 
 fn fake_chronyd(answers: u32, isolated: bool) {
+    fake_chronyd_mode(answers, isolated, 0)
+}
+
+/// mode 0: tracking replies; 1: a reply that is not tracking data (Null body, status BadPktVersion); 2: undecodable bytes
+fn fake_chronyd_mode(answers: u32, isolated: bool, mode: u32) {
     use chrony_candm::reply::{Reply, ReplyBody, Status};
     let _ = std::fs::create_dir_all("/var/run/chrony");
     if isolated {
@@ -212,9 +231,12 @@ fn fake_chronyd(answers: u32, isolated: bool) {
             let sequence = u32::from_be_bytes([buf[8], buf[9], buf[10], buf[11]]);
             let cmd = u16::from_be_bytes([buf[4], buf[5]]);
             let t = daemon::tracking(0.000001, 0.0001, 0.0001, 16.0, 0, std::time::SystemTime::now(), 0x7f7f0101);
-            let reply = Reply { status: Status::Success, cmd, sequence, body: ReplyBody::Tracking(t) };
+            let reply = if mode == 1 { Reply { status: Status::BadPktVersion, cmd, sequence, body: ReplyBody::Null } } else { Reply { status: Status::Success, cmd, sequence, body: ReplyBody::Tracking(t) } };
             let mut out: Vec<u8> = Vec::with_capacity(reply.length());
             reply.serialize(&mut out);
+            if mode == 2 {
+                out = vec![0xab; 40];
+            }
             if let Some(p) = from.as_pathname() {
                 let _ = sock.send_to(&out, p);
             }
@@ -223,6 +245,48 @@ fn fake_chronyd(answers: u32, isolated: bool) {
         drop(sock);
         let _ = std::fs::remove_file(path);
     });
+}
+
+/// child mode: `replay --gettracking <mode> [second_mode]`: the REAL ClockErrorBoundPoller (created as at daemon start) sends its real request
+/// to a stand-in chronyd (private mount namespace) that answers in the given mode(s); prints what get_tracking() returned and what
+/// is_within_grace_period() says right afterwards
+fn gettracking_child(a: &[String]) -> ! {
+    let mode = |i: usize| -> Option<u32> { a.get(i).map(|m| match m.as_str() { "tracking" => 0, "null" => 1, "garbage" => 2, _ => 9 }) };
+    let isolated = unsafe {
+        let _ = std::fs::create_dir_all("/var/run/chrony");
+        libc::unshare(libc::CLONE_NEWNS) == 0 && libc::mount(std::ptr::null(), b"/\0".as_ptr() as *const libc::c_char, std::ptr::null(), libc::MS_REC | libc::MS_PRIVATE, std::ptr::null()) == 0
+    };
+    if !isolated && std::path::Path::new("/var/run/chrony/chronyd.sock").exists() {
+        println!("not_isolated");
+        std::process::exit(0);
+    }
+    let mut p = clock_bound_d::verif::chrony_poller::Poller::new_default();
+    let mut out = Vec::new();
+    for i in 0..2 {
+        if let Some(m) = mode(i) {
+            if m != 9 {
+                fake_chronyd_mode(1, isolated, m);
+                std::thread::sleep(std::time::Duration::from_millis(50));
+            }
+            let r = p.get_tracking();
+            out.push(format!("call{}_some={} call{}_within_grace={}", i + 1, r.is_some(), i + 1, p.is_within_grace_period()));
+            std::thread::sleep(std::time::Duration::from_millis(50));
+        }
+    }
+    println!("{} isolated={}", out.join(" "), isolated);
+    std::process::exit(0);
+}
+
+fn cmd_gettracking(a: &[&str]) -> String {
+    let exe = match std::env::current_exe() {
+        Ok(e) => e,
+        Err(_) => return "noexe".into(),
+    };
+    match std::process::Command::new(exe).arg("--gettracking").args(a).stdin(std::process::Stdio::null()).stderr(std::process::Stdio::null()).output() {
+        Ok(o) if o.status.success() => format!("ok {}", String::from_utf8_lossy(&o.stdout).trim().replace('\n', " ")),
+        Ok(o) => format!("ok crashed status={:?}", o.status.code()),
+        Err(_) => "nospawn".into(),
+    }
 }
 
 /// child mode: `replay --openchild <path>`: what a client does first: ShmReader::new, then one snapshot()
@@ -248,6 +312,11 @@ fn cmd_openlocked(a: &[&str]) -> String {
     let path = seg::tmp_path("ol");
     let mut bytes = seg::header_bytes(72, 1, 2);
     bytes.extend_from_slice(&[0u8; 56]);
+    // optional third value: only the first <n> bytes of the segment are in the file (a daemon that died, or is stopped, part-way
+    // through writing it)
+    if let Some(n) = a.get(2).and_then(|x| x.parse::<usize>().ok()) {
+        bytes.truncate(n);
+    }
     if std::fs::write(&path, &bytes).is_err() {
         return "io".into();
     }
@@ -373,8 +442,13 @@ fn cmd_unmapcheck(a: &[&str]) -> String {
 fn wipecrash_child(a: &[String]) -> ! {
     let path = a.get(0).cloned().unwrap_or_default();
     let limit: u64 = a.get(1).and_then(|x| x.parse().ok()).unwrap_or(12);
+    // third argument "kill": SIGXFSZ keeps its default action, the process is killed at the write that crosses the limit (a crash at
+    // that point: no error path of the daemon runs); otherwise the write fails with EFBIG and the daemon's own error handling runs
+    let kill = a.get(2).map(|s| s.as_str()) == Some("kill");
     unsafe {
-        libc::signal(libc::SIGXFSZ, libc::SIG_IGN);
+        if !kill {
+            libc::signal(libc::SIGXFSZ, libc::SIG_IGN);
+        }
         let rl = libc::rlimit { rlim_cur: limit, rlim_max: limit };
         libc::setrlimit(libc::RLIMIT_FSIZE, &rl);
     }
@@ -419,6 +493,64 @@ fn cmd_wipecrash(a: &[&str]) -> String {
     format!("ok child={} len={} head={} reader={}", child.replace(' ', "_"), after.len(), hexs, opened.unwrap_or_else(|p| format!("panic_{}", panic_msg(&p))).replace(' ', "_"))
 }
 
+/// wiperepair <hex prior file | MISSING> <limit>: a daemon starting over that file is KILLED inside wipe() at the write that would take a
+/// file beyond <limit> bytes; then the daemon is started again (real ShmWriter::new, no limit), publishes one record, and a new client
+/// attaches: the segment left unusable must have been repaired
+fn cmd_wiperepair(a: &[&str]) -> String {
+    use clock_bound_shm::ShmWrite;
+    let hex = a.get(0).copied().unwrap_or("");
+    let limit = a.get(1).copied().unwrap_or("12");
+    let dir = seg::tmp_path("wr_dir");
+    let _ = std::fs::remove_dir_all(&dir);
+    if std::fs::create_dir_all(&dir).is_err() {
+        return "io".into();
+    }
+    let path = format!("{}/shm", dir);
+    if hex != "MISSING" {
+        let bytes: Vec<u8> = (0..hex.len() / 2).map(|i| u8::from_str_radix(&hex[2 * i..2 * i + 2], 16).unwrap_or(0)).collect();
+        if std::fs::write(&path, &bytes).is_err() {
+            return "io".into();
+        }
+    }
+    let exe = match std::env::current_exe() {
+        Ok(e) => e,
+        Err(_) => return "noexe".into(),
+    };
+    let out = std::process::Command::new(exe).arg("--wipecrash").arg(&path).arg(limit).arg("kill").stdin(std::process::Stdio::null()).output();
+    let child = match out {
+        Ok(o) => format!("{}signal={}", String::from_utf8_lossy(&o.stdout).trim().replace(' ', "_"), {
+            use std::os::unix::process::ExitStatusExt;
+            o.status.signal().unwrap_or(0)
+        }),
+        Err(_) => "nospawn".into(),
+    };
+    let left: Vec<String> = std::fs::read_dir(&dir).map(|d| d.filter_map(|e| e.ok()).map(|e| format!("{}:{}", e.file_name().to_string_lossy(), e.metadata().map(|m| m.len()).unwrap_or(0))).collect()).unwrap_or_default();
+    let p2 = path.clone();
+    let restart = catch_unwind(AssertUnwindSafe(|| match clock_bound_shm::ShmWriter::new(std::path::Path::new(&p2)) {
+        Ok(mut w) => {
+            let ceb = clock_bound_shm::ClockErrorBound::new(libc::timespec { tv_sec: 7, tv_nsec: 0 }, libc::timespec { tv_sec: 1007, tv_nsec: 0 }, 4242, 1000, 0, clock_bound_shm::ClockStatus::Synchronized);
+            w.write(&ceb);
+            "ok".to_string()
+        }
+        Err(e) => format!("err_{}", e).replace(' ', "_"),
+    }))
+    .unwrap_or_else(|p| format!("panic_{}", panic_msg(&p)).replace(' ', "_"));
+    let cpath = std::ffi::CString::new(path.clone()).unwrap();
+    let opened = catch_unwind(AssertUnwindSafe(|| match clock_bound_shm::ShmReader::new(&cpath) {
+        Ok(mut r) => match r.snapshot() {
+            Ok(c) => {
+                let b: [u8; 56] = unsafe { std::mem::transmute_copy(c) };
+                format!("Ok:record_bound={}", i64::from_ne_bytes(b[32..40].try_into().unwrap()))
+            }
+            Err(e) => format!("Ok:snapshot_err:{:?}", e).replace(' ', "_"),
+        },
+        Err(e) => shm_err_pub(&e),
+    }))
+    .unwrap_or_else(|p| format!("panic_{}", panic_msg(&p)).replace(' ', "_"));
+    let _ = std::fs::remove_dir_all(&dir);
+    format!("ok child={} left={} restart={} reader={}", child, left.join(","), restart, opened.replace(' ', "_"))
+}
+
 /// threads <site> <nth> <mode> [<watchdog ms>]: run the child above; report when (whether) thread_manager::run returned
 fn cmd_threads(a: &[&str]) -> String {
     let wd: u64 = a.get(3).and_then(|x| x.parse().ok()).unwrap_or(10_000);
@@ -431,6 +563,7 @@ fn cmd_threads(a: &[&str]) -> String {
         .args(&a[..a.len().min(3)])
         .arg(a.get(4).copied().unwrap_or("0"))
         .arg(a.get(5).copied().unwrap_or("0"))
+        .arg(a.get(6).copied().unwrap_or("0"))
         .stdin(std::process::Stdio::null())
         .stdout(std::process::Stdio::piped())
         .stderr(std::process::Stdio::null())
@@ -474,6 +607,9 @@ fn main() {
     if argv.get(1).map(|s| s.as_str()) == Some("--wipecrash") {
         wipecrash_child(&argv[2..]);
     }
+    if argv.get(1).map(|s| s.as_str()) == Some("--gettracking") {
+        gettracking_child(&argv[2..]);
+    }
     if argv.get(1).map(|s| s.as_str()) == Some("--openchild") {
         openchild(&argv[2..]);
     }
@@ -496,6 +632,7 @@ fn main() {
             "now" => cmd_now(&ints()),
             "extract" => daemon::cmd_extract(&rest),
             "history" => daemon::cmd_history(&rest),
+            "historyseg" => daemon::cmd_historyseg(&rest),
             "msgloop" => daemon::cmd_msgloop(&rest),
             "grace" => daemon::cmd_grace(&rest),
             "refid" => daemon::cmd_refid(&rest),
@@ -509,6 +646,7 @@ fn main() {
             "abi" => abi::cmd_abi(&rest),
             "abi2" => abi::cmd_abi2(&rest),
             "recreate" => seg::cmd_recreate(&rest),
+            "open_race" => seg::cmd_open_race(&rest),
             "snapshot_stall" => seg::cmd_snapshot_stall(&rest),
             "seq_publish" => seg::cmd_seq_publish(&rest),
             "snapshot_stall_odd" => seg::cmd_snapshot_stall_odd(&rest),
@@ -516,8 +654,10 @@ fn main() {
             "e2e" => daemon::cmd_e2e(&rest),
             "threads" => cmd_threads(&rest),
             "openlocked" => cmd_openlocked(&rest),
+            "gettracking" => cmd_gettracking(&rest),
             "unmapcheck" => cmd_unmapcheck(&rest),
             "wipecrash" => cmd_wipecrash(&rest),
+            "wiperepair" => cmd_wiperepair(&rest),
             "ping" => "pong".to_string(),
             _ => format!("unknown-command {}", cmd),
         };
